@@ -823,7 +823,8 @@ public:
 		if (gitr != _groups.end())
 			return gitr->second;
 		GroupBase *gb1(grpbase ? grpbase->create_nested_group(fnum) : create_nested_group(fnum));
-		add_group(gb1);
+		if (gb1) // not a group of this message
+			add_group(gb1);
 		return gb1;
 	}
 
